@@ -239,3 +239,45 @@ Proof.
   destruct (N.ltb_spec v 26); [reflexivity|]. destruct (N.ltb_spec v 52); [reflexivity|].
   destruct (N.ltb_spec v 62); [reflexivity|lia].
 Qed.
+
+(** * A change of a covered member changes the hashed byte string. *)
+From C01 Require Roundtrip.
+
+Lemma remove_keys_wf ks : forall x, wf_obj x -> wf_obj (remove_keys ks x).
+Proof.
+  unfold remove_keys. induction ks as [|k ks IH]; intros x Hx; cbn [fold_left]; [exact Hx|].
+  apply IH, wf_obj_remove, Hx.
+Qed.
+
+Lemma remove_keys_sub ks : forall x k v, In (k, v) (remove_keys ks x) -> In (k, v) x.
+Proof.
+  unfold remove_keys. induction ks as [|k0 ks IH]; intros x k v Hin; cbn [fold_left] in Hin; [exact Hin|].
+  apply IH in Hin. eapply In_remove; eauto.
+Qed.
+
+Theorem covered_change_changes_preimage ks o o' :
+  wf_obj o -> wf_obj o' ->
+  Roundtrip.ints_ok (JObj o) = true -> Roundtrip.ints_ok (JObj o') = true ->
+  Roundtrip.jdepth (JObj o) < 128 -> Roundtrip.jdepth (JObj o') < 128 ->
+  remove_keys ks o <> remove_keys ks o' ->
+  canonical_without ks o <> canonical_without ks o'.
+Proof.
+  intros W W' I I' D D' Hne E. apply Hne. unfold canonical_without in E.
+  pose proof (remove_keys_wf ks) as Hwf. pose proof (remove_keys_sub ks) as Hsub.
+  assert (Hints : forall x, Roundtrip.ints_ok (JObj x) = true -> Roundtrip.ints_ok (JObj (remove_keys ks x)) = true).
+  { intros x Hx. cbn [Roundtrip.ints_ok] in *. rewrite forallb_forall in *. intros [k v] Hin. apply Hx. eapply Hsub; eauto. }
+  assert (Hdep : forall x, Roundtrip.jdepth (JObj x) < 128 -> Roundtrip.jdepth (JObj (remove_keys ks x)) < 128).
+  { intros x Hx. cbn [Roundtrip.jdepth] in *.
+    assert (Hm : forall (m : list (str * json)) d, (forall kv, In kv m -> Roundtrip.jdepth (snd kv) < d) -> 0 < d ->
+                 fold_right (fun kv a => N.max (Roundtrip.jdepth (snd kv)) a) 0 m < d).
+    { induction m as [|kv m IHm]; intros d Hd Hpos; cbn [fold_right]; [exact Hpos|].
+      apply N.max_lub_lt; [apply Hd; now left|apply IHm; [intros; apply Hd; now right|exact Hpos]]. }
+    assert (Hx' : fold_right (fun kv a => N.max (Roundtrip.jdepth (snd kv)) a) 0 x < 127) by lia.
+    pose proof (Roundtrip.max_fold_lt (fun kv : str * json => Roundtrip.jdepth (snd kv)) x 127 Hx') as Hf.
+    assert (Hlt : fold_right (fun kv a => N.max (Roundtrip.jdepth (snd kv)) a) 0 (remove_keys ks x) < 127).
+    { apply Hm; [|reflexivity]. intros [k v] Hin. apply Hsub in Hin. exact (Hf (k, v) Hin). }
+    lia. }
+  assert (J : JObj (remove_keys ks o) = JObj (remove_keys ks o')).
+  { apply Roundtrip.print_injective; auto; try (apply Hwf; assumption). }
+  now injection J.
+Qed.
